@@ -87,6 +87,10 @@ def load(backend="snarkjs", symbolic=False, quiet=True):
         engine.ENG.modulus = e.P
         engine.ENG.tokenize_str = (backend == "qaptools")
         install_bool_summaries(e, engine)
+    # abandoned paths leave half-open branch contexts behind; their destructor only prints "unclosed branches left"
+    # when the garbage collector finds them (not part of any property): silenced
+    if hasattr(br, "BranchingValues") and hasattr(br.BranchingValues, "__del__"):
+        br.BranchingValues.__del__ = lambda self: None
     e.modstate = {}
     track_modules(e, e.mods)
     _ENV = e
@@ -128,7 +132,28 @@ def track_modules(e, mods):
         e.modstate[m.__name__] = st
 
 
+def clear_function_caches(e):
+    """functools caches on library functions/methods are emptied as well (a fresh interpreter has none)"""
+    import inspect
+    import sys
+    for name in list(getattr(e, "modstate", {})):
+        m = sys.modules.get(name)
+        if m is None:
+            continue
+        owners = [m] + [c for c in vars(m).values() if inspect.isclass(c) and getattr(c, "__module__", None) == name]
+        for owner in owners:
+            for attr, obj in list(vars(owner).items()):
+                f = getattr(obj, "__func__", obj)
+                cc = getattr(f, "cache_clear", None)
+                if callable(cc):
+                    try:
+                        cc()
+                    except Exception:
+                        pass
+
+
 def restore_modules(e):
+    clear_function_caches(e)
     for st in getattr(e, "modstate", {}).values():
         for obj, cp in st:
             if not _same(obj, cp):
